@@ -5,6 +5,7 @@ go 1.21
 require (
 	github.com/Trendyol/go-dcp v0.0.0
 	github.com/asaskevich/EventBus v0.0.0-20200907212545-49d423059eef
+	github.com/couchbase/gocbcore/v10 v10.5.2
 	github.com/sirupsen/logrus v1.9.3
 )
 
@@ -13,7 +14,6 @@ require (
 	github.com/bytedance/sonic v1.12.8 // indirect
 	github.com/bytedance/sonic/loader v0.2.2 // indirect
 	github.com/cloudwego/base64x v0.1.5 // indirect
-	github.com/couchbase/gocbcore/v10 v10.5.2 // indirect
 	github.com/davecgh/go-spew v1.1.1 // indirect
 	github.com/emicklei/go-restful/v3 v3.11.0 // indirect
 	github.com/go-logr/logr v1.4.1 // indirect
